@@ -1,6 +1,7 @@
 import YtkModel.Wire
 import YtkModel.Merge
 import YtkDriver.HeapWire
+import YtkDriver.FluentOps
 open Lean
 
 namespace Ytk.C04
@@ -56,6 +57,9 @@ def handle : Wire.Handler := fun op a => do
     let ls ← HeapWire.getAddrs a "layers"
     let o ← HeapWire.getOpt a
     HeapWire.result a h ls (Heap.mergeAll o h ls) [("writes", "afterWrites")] true
+  | "fluent" =>
+    -- fluent.ConfigHelper as a state machine (YtkDriver/FluentOps.lean)
+    FluentOps.run a
   | _ => throw s!"C04: unknown op {op}"
 
 end Ytk.C04
